@@ -11,7 +11,7 @@
          self.remove(n); removed.append(n)
      return removed
 
-   The three type lists are regenerated from the source (Gen_types.ru_*).  The two places where the
+   The three type lists are regenerated from the source (the ru_ lists of Gen_types).  The two places where the
    code iterates in an order that is not determined by the graph are explicit arguments:
      nodes : the iteration order of `self.graph`            (must enumerate dom c, BadOrder otherwise)
      ord n : the iteration order of the set `self.fanin(n)` (must enumerate fanin c n, BadOrder otherwise)
@@ -19,6 +19,7 @@
 From stdpp Require Import strings gmap sets.
 From CG Require Export Types Gen.Gen_types Base.Api.
 Open Scope string_scope.
+Open Scope list_scope.
 
 Record ru_tables := { keep_true : list gtype; keep_false : list gtype; skip_fanin : list gtype }.
 Definition gen_ru_tables := {| keep_true := ru_keep_true; keep_false := ru_keep_false; skip_fanin := ru_skip_fanin |}.
